@@ -140,7 +140,18 @@ func MkTime(sec, nsec int64, off int) time.Time {
 	if off == 0 {
 		return time.Unix(sec, nsec).UTC()
 	}
-	return time.Unix(sec, nsec).In(time.FixedZone("", off))
+	// some offsets carry a zone name the tz database does not know, the way time.FixedZone("CEST", …)
+	// or a parsed abbreviation does; a name never matters for equality (instant and offset do)
+	name := ""
+	switch {
+	case off == 7200:
+		name = "CEST"
+	case off%60 != 0:
+		name = "LMT"
+	case off < 0 && off%3600 == 0:
+		name = fmt.Sprintf("UTC%+d", off/3600)
+	}
+	return time.Unix(sec, nsec).In(time.FixedZone(name, off))
 }
 
 // Doc is the field map of a document.
